@@ -14,6 +14,7 @@ import (
 	"go.minekube.com/gate/pkg/edition/java/proxy/phase"
 	"go.minekube.com/gate/pkg/edition/java/proxy/tablist"
 	"go.minekube.com/gate/pkg/gate/proto"
+	"go.minekube.com/gate/pkg/internal/verifhook"
 	"reflect"
 	"time"
 )
@@ -178,6 +179,7 @@ func (b *backendTransitionSessionHandler) handleJoinGame(pc *proto.PacketContext
 	if existingConn != nil {
 		// Shut down the existing server connection.
 		b.serverConn.player.connectedServer_ = nil
+		verifhook.Event("sw.setConnected", "player", b.serverConn.player.profile.Name, "server", "")
 		b.serverConn.player.mu.Unlock()
 		existingConn.disconnect()
 
